@@ -205,6 +205,7 @@ func BuildEngine(c *Case, reg prometheus.Registerer) (queryEngine, []*mstore.Sto
 		}
 		st.Faults = DistFaults[len(stores)]
 		st.HonorCtx = c.StoreCtx
+		st.OwnAbortErr = c.StoreOwnErr
 		stores = append(stores, st)
 		remotes = append(remotes, engine.NewLocalEngine(ro, st))
 	}
@@ -256,6 +257,7 @@ func RunEngineCtx(ctx context.Context, c *Case, st *mstore.Store, withQuery func
 	st.Reset()
 	st.Faults = c.Faults
 	st.HonorCtx = c.StoreCtx
+	st.OwnAbortErr = c.StoreOwnErr
 	if c.ShareLabels {
 		snap := st.Snapshot()
 		st.ShareLabels = true
